@@ -135,7 +135,7 @@ def scan(source: str, callback: callable):
             elif scanner.eat(Chars.RightRound):
                 state.expression -= 1
             elif not literal(scanner):
-                scanner.pos += 1
+                scanner.next()
 
             state.end = scanner.pos
 
